@@ -35,6 +35,7 @@ ASSUMPTIONS = [
     'are not compared',
 ]
 KNOWN_ID = 'C09-placemarker'
+KNOWN_BS = 'C09-stringize-backslash-outside-literal'
 TIMEOUT = 5
 FUEL = 200000
 
@@ -238,8 +239,9 @@ def parse_driver(line):
     w = line.split()
     if not w:
         return ('bad',)
-    if w[0] in ('ok', 'ok!', 'okx'):
-        return ('ok', dec(w[1:]), w[0] != 'ok')
+    if w[0].startswith('ok'):
+        # model: ok[:p][b] (ghost flags: placemarker region / stringize-backslash region); spec: ok | okx (crossed)
+        return ('ok', dec(w[1:]), w[0][2:])
     if w[0] == 'err':
         return ('err', w[1])
     return ('bad', line[:80])
@@ -337,6 +339,13 @@ def pm_capable(text):
                 return True
     return False
 
+def bs_capable(c):
+    """the text has a `\\` outside string/character tokens and some macro uses `#` (syntactic over-approximation, used only
+    when the model stops with a diagnostic)"""
+    if c['toks'] is None:
+        return False
+    return any(k == 'p' and t == '\\' for k, t, _, _, _ in c['toks']) and re.search(r'#\s*define[^\n]*#', c['text']) is not None
+
 def oracle_verdict(c):
     """'agree' | 'both-reject' | ('violation', what) | ('known', what) | ('inconclusive', why)"""
     C, G, S, M = c['C'], c['G'], c['S'], c['M']
@@ -350,15 +359,24 @@ def oracle_verdict(c):
         return 'agree'
     if cf is None and gf is None:
         return 'both-reject'
-    in_pm = (M[0] == 'ok' and M[2]) or (M[0] == 'err' and M[1] in ('pasteAtStart',) and pm_capable(c['text']))
+    # undefined behaviour: a ## whose result is not a valid preprocessing token (6.10.3.3p3), judged by the oracle side
+    if (S[0] == 'err' and S[1] in ('pasteInvalid', 'lexError', 'nullDeref')) or (G[0] == 'err' and 'valid preprocessing token' in G[1]):
+        return ('skipped_ub', 'a ## does not give a valid preprocessing token')
+    if gf is None:
+        return ('inconclusive', 'gcc rejects the input, chibicc accepts it (constraint violation diagnosed late or not at all: not C09): ' + G[1])
+    in_pm = (M[0] == 'ok' and 'p' in M[2]) or (M[0] == 'err' and M[1] in ('pasteAtStart', 'pasteInvalid') and pm_capable(c['text']))
+    in_bs = (M[0] == 'ok' and 'b' in M[2]) or (M[0] == 'err' and bs_capable(c))
     what = (f"chibicc: {' '.join(cf)[:300] if cf is not None else C[:2]} | gcc -E -P: {' '.join(gf)[:300] if gf is not None else G[:2]}")
     if in_pm:
-        return ('known', what)
+        return ('known', what, KNOWN_ID)
+    if in_bs and cf is not None and gf is not None and [t.replace('\\\\', '\\') for t in cf] == [t.replace('\\\\', '\\') for t in gf]:
+        # the outputs differ only in doubled backslashes inside string literals
+        return ('known', what, KNOWN_BS)
     if re.search(r',\s*##', c['text']):
         return ('inconclusive', 'GNU `, ## __VA_ARGS__` has no C11 text (gcc keeps the comma for an empty-but-present variable argument and does not pre-expand)')
     sf = flat(S)
     spec_agrees_gcc = (sf is not None and gf is not None and sf == gf) or (sf is None and gf is None and S[0] == 'err')
-    if S[0] == 'ok' and S[2]:
+    if S[0] == 'ok' and 'x' in S[2]:
         return ('inconclusive', 'C11 6.10.3.4p4: an invocation takes its arguments from beyond the replacement list it starts in (unspecified)')
     if not spec_agrees_gcc:
         return ('inconclusive', 'gcc and the Lean specification disagree with each other: ' + what + f" | spec: {' '.join(sf)[:200] if sf is not None else S[:2]}")
@@ -366,17 +384,13 @@ def oracle_verdict(c):
 
 def spec_vs_gcc(c):
     G, S = c['G'], c['S']
-    if S[0] == 'ok' and S[2]:
+    if S[0] == 'ok' and 'x' in S[2]:
         return None
     if re.search(r',\s*##', c['text']):
         return None
     if G[0] == 'ok' and S[0] == 'ok':
         return None if G[1] == flat(S) else ('spec ' + ' '.join(flat(S))[:200] + ' | gcc ' + ' '.join(G[1])[:200])
-    if G[0] == 'err' and S[0] == 'err':
-        return None
-    if G[0] == 'unlexable-output' or S[0] in ('bad', 'unlexable-input'):
-        return None
-    return f'spec {S[:2]} | gcc {G[:2]}'
+    return None        # one of them rejects: invalid or undefined input, not a statement about 6.10.3 on valid programs
 
 # ------------------------------------------------------------------------------------------------ generators
 
@@ -407,7 +421,8 @@ def glue(a, b):
     k = (a, b)
     if k not in _glue_cache:
         try:
-            _glue_cache[k] = [t[1] for t in tokenize(a + b)] != [a, b]
+            # the printer rule of main.c is the conservative side (C11 pp-numbers also continue over `_`)
+            _glue_cache[k] = need_space(a, b) or [t[1] for t in tokenize(a + b)] != [a, b]
         except LexErr:
             _glue_cache[k] = True
     return _glue_cache[k]
@@ -478,6 +493,8 @@ def rand_body(rng, me, kind, params, va, names, allow_hash, allow_gnu):
             inner = rand_body(rng, me, kind, params, va, names, allow_hash, False)[:3]
             if inner and inner[-1] == '#':
                 inner.pop()
+            if inner.count('(') != inner.count(')') or (')' in inner and inner.index(')') < (inner.index('(') if '(' in inner else 99)):
+                inner = [t for t in inner if t not in '()']
             if inner and inner[0] != '##' and inner[-1] != '##' and '__VA_OPT__' not in inner:
                 if out and out[-1] == '##':
                     out.append(rng.choice(A_ID))
@@ -687,6 +704,7 @@ BATTERY = [
 ]
 
 WITNESS_PM = '#define t(x,y,z) x ## y ## z\nt(,,)\n'
+WITNESS_BS = '#define str(s) # s\nstr(: @\\n)\n'
 
 def corpus_cases():
     d = os.path.join(VERIF, 'corpus', 'C09')
@@ -791,16 +809,18 @@ def process(ctx, corr, tagged, stop_after=3):
             corr.count('oracle_agree')
         elif v == 'both-reject':
             corr.count('oracle_both_reject')
+        elif v[0] == 'skipped_ub':
+            corr.count('skipped_ub')
         elif v[0] == 'inconclusive':
             corr.count('oracle_inconclusive')
             corr.extra.setdefault('inconclusive_samples', [])
             if len(corr.extra['inconclusive_samples']) < 4:
                 corr.extra['inconclusive_samples'].append({'input': c['text'], 'why': v[1][:300]})
         elif v[0] == 'known':
-            corr.count('known_region_hits')
-            if len([x for x in corr.violations if x.get('known_id') == KNOWN_ID]) < 1:
-                corr.violations.append({'what': 'placemarker region: ' + v[1], 'input': c['text'], 'known_id': KNOWN_ID,
-                                        'expected': 'gcc -E -P / C11 6.10.3.3', 'got': str(c['C'])[:200]})
+            corr.count('known_region_hits:' + v[2])
+            if len([x for x in corr.violations if x.get('known_id') == v[2]]) < 1:
+                corr.violations.append({'what': 'known region: ' + v[1], 'input': c['text'], 'known_id': v[2],
+                                        'expected': 'gcc -E -P / C11 6.10.3.2-3', 'got': str(c['C'])[:200]})
         elif v[0] == 'violation' and len([x for x in corr.violations if not x.get('known_id')]) < stop_after:
             kind = v[1][:40]
             def bad(t):
@@ -898,12 +918,13 @@ def correspond(ctx, corr):
     nrand = 1500 if not ctx.thorough else 30000
     tagged += [('random', gen_random_case(rng)) for _ in range(nrand)]
     # the known finding's witness is replayed on every run
-    w = run_all(ctx, [WITNESS_PM])[0]
-    corr.evaluations += 1
-    if oracle_verdict(w) != 'agree':
-        corr.known_hits.append(KNOWN_ID)
-    else:
-        corr.extra['known_finding_note'] = 'the witness t(,,) of C09-placemarker now expands like gcc: the finding can be retired'
+    for wit, fid in ((WITNESS_PM, KNOWN_ID), (WITNESS_BS, KNOWN_BS)):
+        w = run_all(ctx, [wit])[0]
+        corr.evaluations += 1
+        if oracle_verdict(w) != 'agree':
+            corr.known_hits.append(fid)
+        else:
+            corr.extra.setdefault('known_finding_notes', []).append(f'the witness of {fid} now expands like gcc: the finding can be retired')
     chunk = 2000
     for i in range(0, len(tagged), chunk):
         cases = process(ctx, corr, tagged[i:i + chunk])
@@ -942,8 +963,8 @@ def replay(ctx, corr, path):
     if isinstance(v, tuple) and v[0] == 'violation':
         corr.violations.append({'what': v[1], 'input': text, 'expected': str(c['G'][:2]), 'got': str(c['C'][:2])})
     if isinstance(v, tuple) and v[0] == 'known':
-        corr.violations.append({'what': v[1], 'input': text, 'known_id': KNOWN_ID, 'expected': str(c['G'][:2]), 'got': str(c['C'][:2])})
-        corr.known_hits.append(KNOWN_ID)
+        corr.violations.append({'what': v[1], 'input': text, 'known_id': v[2], 'expected': str(c['G'][:2]), 'got': str(c['C'][:2])})
+        corr.known_hits.append(v[2])
     if tp:
         corr.disagreements.append({'kind': 'model vs chibicc -E', 'what': tp, 'input': text})
 
